@@ -211,6 +211,65 @@ def _mutates_and_reads(fi, param):
     return mut and read
 
 
+def carried_kind(loop, nm):
+    """Use-kind of a carried name inside `loop`: SEEN (only .add / membership), COUNTER (only += constant, compared / passed on),
+    FLAG (only constants assigned, only truth-tested), BUFFER (list of derived values: append / clear / slicing / len / indexing),
+    WRITE_ONCE (assigned only under an `is None` test of itself), TABLE (subscript stores and lookups), OTHER."""
+    writes, reads = [], []
+    for st in loop.body:
+        for n in ast.walk(st):
+            if isinstance(n, ast.Call) and isinstance(n.func, ast.Attribute) and pseudo(n.func.value) == nm:
+                (writes if n.func.attr in MUT else reads).append(('call', n.func.attr, n))
+            elif isinstance(n, ast.AugAssign) and pseudo(n.target) == nm:
+                writes.append(('aug', n, n))
+            elif isinstance(n, ast.Assign):
+                for t in n.targets:
+                    if pseudo(t) == nm:
+                        writes.append(('assign', n.value, n))
+                    elif isinstance(t, ast.Subscript) and base_name(t) == nm:
+                        writes.append(('setitem', n.value, n))
+            elif isinstance(n, ast.Compare) and (pseudo(n.left) == nm or any(pseudo(c) == nm for c in n.comparators)):
+                ops = n.ops
+                if any(isinstance(o, (ast.In, ast.NotIn)) for o in ops) and any(pseudo(c) == nm for c in n.comparators):
+                    reads.append(('member', None, n))
+                elif any(isinstance(o, (ast.Is, ast.IsNot)) for o in ops):
+                    reads.append(('isnone', None, n))
+                else:
+                    reads.append(('compare', None, n))
+            elif isinstance(n, ast.Subscript) and isinstance(n.ctx, ast.Load) and pseudo(n.value) == nm:
+                reads.append(('getitem', None, n))
+    wk = set(w[0] if w[0] != 'call' else 'call:' + w[1] for w in writes)
+    rk = set(r[0] if r[0] != 'call' else 'call:' + r[1] for r in reads)
+    if wk and wk <= {'call:add', 'call:update'} and rk <= {'member'}:
+        return 'SEEN'
+    if wk and wk <= {'aug', 'assign'} and all((w[0] == 'aug' and isinstance(w[1].value, ast.Constant)) or
+                                                (w[0] == 'assign' and isinstance(w[1], ast.Constant) and isinstance(w[1].value, int))
+                                                or (w[0] == 'aug' and isinstance(w[1].op, ast.Mult)) for w in writes) \
+            and rk <= {'compare'}:
+        return 'COUNTER'
+    if wk == {'assign'} and all(isinstance(w[1], ast.Constant) for w in writes) and not (rk - {'compare'}):
+        return 'FLAG'
+    if wk == {'assign'} and all(_guarded_by_isnone(w[2], nm, loop) for w in writes):
+        return 'WRITE_ONCE'
+    if wk and wk <= {'call:append', 'call:clear', 'call:extend', 'assign', 'call:pop', 'aug'} and \
+            rk <= {'getitem', 'compare', 'call:index', 'call:count'}:
+        return 'BUFFER'
+    if 'setitem' in wk or 'call:setdefault' in wk:
+        return 'TABLE'
+    return 'OTHER'
+
+
+def _guarded_by_isnone(node, nm, loop):
+    p = getattr(node, '_parent', None)
+    while p is not None and p is not loop:
+        if isinstance(p, ast.If) and isinstance(p.test, ast.Compare) and pseudo(p.test.left) == nm \
+                and isinstance(p.test.ops[0], ast.Is) and isinstance(p.test.comparators[0], ast.Constant) \
+                and p.test.comparators[0].value is None:
+            return True
+        p = getattr(p, '_parent', None)
+    return False
+
+
 def loops_of(fi):
     """(loop, enclosing loop variables) for every for-loop of fi, outermost first."""
     out = []
@@ -249,6 +308,11 @@ def loops_of(fi):
     return out
 
 
+def via_names(carried, k):
+    w, r = carried[k]
+    return {k} if (w is r and isinstance(w, ast.Call) and not (isinstance(w.func, ast.Attribute) and w.func.attr in MUT)) else set()
+
+
 def r28_functions(ctx, specs, rule='R28'):
     """specs: list of (qualified function name, {allowed carried name: reason})"""
     run = ctx.run
@@ -266,7 +330,15 @@ def r28_functions(ctx, specs, rule='R28'):
         for loop, current in lps:
             n += 1
             carried = loop_carried(fi, loop, current, ctx)
-            bad = {k: v for k, v in carried.items() if k not in allowed}
+            kinds = allowed.get('__kinds__', ()) if isinstance(allowed, dict) else ()
+            bad = {}
+            for k, v in carried.items():
+                if k in allowed:
+                    continue
+                kd = carried_kind(loop, k) if k not in via_names(carried, k) else 'EXTERNAL'
+                if kd in kinds:
+                    continue
+                bad[k] = v
             for nm, (w, r) in sorted(bad.items()):
                 bad_any = True
                 run.fail(rule, where(ctx.repo, r), fi.qualname, 'state %s carried across iterations of `for %s in %s`'
